@@ -157,7 +157,10 @@ def _elementwise_sound(ts, a, b) -> bool:
 def h_sub_maybe(u: int, tower: int, n: int, m: int, k: int, p: int, q: int) -> bool:
     """is_subtype(a, b) => is_maybe_subtype(a, b), in both argument positions, for the symbolic
     term against every term of the table (inner sub-table size m).  Secondary: container
-    subsumption is element-wise sound (see _elementwise_sound).
+    subsumption is element-wise sound (see _elementwise_sound); and widening the right-hand side
+    by a union member preserves the may-be relation: is_maybe_subtype(a, b) =>
+    is_maybe_subtype(a, Union{b, x}) and is_maybe_subtype(a, Union{x, b}) for x in None, E, str
+    (b <: b | x, so anything that may be a b may be a b | x).
 
     pre: 0 <= u <= 1 and 0 <= tower <= 1 and 1 <= n <= 16 and 1 <= m <= 16
     pre: 0 <= k < 9 and 0 <= p < 16 and 0 <= q < 16
@@ -169,11 +172,52 @@ def h_sub_maybe(u: int, tower: int, n: int, m: int, k: int, p: int, q: int) -> b
     a = uni.decode(tower, k, p, q, n)
     with T.untraced():
         ok = True
+        wide = uni.widening_members(tower)
         for b in uni.terms(tower, m):
             if ts.is_subtype(a, b) and not (ts.is_maybe_subtype(a, b) and _elementwise_sound(ts, a, b)):
                 ok = False
             if ts.is_subtype(b, a) and not (ts.is_maybe_subtype(b, a) and _elementwise_sound(ts, b, a)):
                 ok = False
+            if ts.is_maybe_subtype(a, b):
+                for x in wide:
+                    if not (ts.is_maybe_subtype(a, UnionType((b, x))) and ts.is_maybe_subtype(a, UnionType((x, b)))):
+                        ok = False
+    return reach(ok)
+
+
+def h_dist_nested(u: int, tower: int, lk: int, lp: int, lq: int) -> bool:
+    """The distance law on the shapes the pair obligation ``dist`` is too small for: the subtype
+    S is a tuple whose items may be unions (tuple[x] / tuple[x, y], x, y from 7 argument terms
+    incl. None | B and int | str, chosen by the selectors); the supertype ranges (enumerated) over
+    every such tuple T and every Union{T, X}, Union{X, T} with X in None, E, str:
+    subtype_distance(sup, S) defined => is_maybe_subtype(S, sup); and the widening law
+    is_maybe_subtype(S, T) => is_maybe_subtype(S, Union{T, X}).
+
+    pre: 0 <= u <= 1 and 0 <= tower <= 1 and 0 <= lk <= 1 and 0 <= lp < 7 and 0 <= lq < 7
+    post: _
+    """
+    u, tower = realize(u), realize(tower)  # pinned selectors
+    uni = T.universe(u)
+    ts = uni.systems[1 if tower else 0]
+    args = uni.nested_args(tower)
+    if lk == 0:
+        sub = TupleType((pick(args, lp),))
+    else:
+        sub = TupleType((pick(args, lp), pick(args, lq)))
+    with T.untraced():
+        ok = True
+        tuples = [TupleType((x,)) for x in args] + [TupleType((x, y)) for x in args for y in args]
+        for tup in tuples:
+            may = ts.is_maybe_subtype(sub, tup)
+            if ts.subtype_distance(tup, sub) is not None and not may:
+                ok = False
+            for x in uni.widening_members(tower):
+                for sup in (UnionType((tup, x)), UnionType((x, tup))):
+                    may_u = ts.is_maybe_subtype(sub, sup)
+                    if ts.subtype_distance(sup, sub) is not None and not may_u:
+                        ok = False
+                    if may and not may_u:
+                        ok = False
     return reach(ok)
 
 
@@ -238,10 +282,12 @@ META = {
              "depth <= 2 decodable from the selector tuple (853 terms: Any, None, 18 classes, list/set/dict/tuple/union "
              "over 16 argument terms) the real TypeSystem satisfies: reflexivity and top of is_subtype/is_maybe_subtype; "
              "subtype_distance(t,t)==0; is_subclass == issubclass (+ tower) on 21x21 analysed classes and the same for "
-             "the instance types; is_subtype => is_maybe_subtype (and element-wise soundness of container subsumption) "
+             "the instance types; is_subtype => is_maybe_subtype (and element-wise soundness of container subsumption, and "
+             "widening of the right side by a union member) "
              "against every table term; transitivity through every "
              "middle term against all pairs of table terms; the union law against all table terms; and "
-             "'distance defined => may-be subtype' for all pairs of terms over the first n argument terms "
+             "'distance defined => may-be subtype' for tuple subtypes with union items against 56 tuples and their unions "
+             "with None/E/str (dist_nested), and for all pairs of terms over the first n argument terms "
              "(n=5 quick: 113x113 pairs; thorough n=8: 245x245 on universe 0 with tower, 113x113 on the other three systems).  Exhaustive within these bounds when every obligation "
              "reports 'confirmed'; recorded deviations are listed in known_findings.d/C25.jsonl and excluded by "
              "syntactic predicates so that other violations are still reported.",
@@ -285,6 +331,7 @@ def obligations(tier: str):
         Chx("dist_self", h_dist_self, timeout=T1, fix={"n": 16}, split=sys_split),
         Chx("subclass", h_subclass, timeout=T1, split=sys_split),
         Chx("sub_maybe", h_sub_maybe, timeout=T1, path_timeout=60, fix={"n": 16, "m": 16}, split=sys_split),
+        Chx("dist_nested", h_dist_nested, timeout=T1, path_timeout=60, split=sys_split),
         Chx("trans", h_trans, timeout=T1, path_timeout=60, fix={"n": 16, "m": 16}, split=sys_split),
         # union law: a over the full table, b over the 27 terms of depth <= 1, c over terms(m)
         Chx("union", h_union, timeout=T1, path_timeout=120, fix={"n": 16, "m": 5 if q else 8},
